@@ -8,7 +8,7 @@ from .c04 import judge
 
 IMPORTS = ('From OFV Require Import Base.Cplx Base.Lin Sem.PauliSem Sem.FermiSem Sem.BoseSem Model.SymbolicOp Model.QubitOp Model.LadderOp '
            'Model.NormalOrder Model.Conjugate Model.Predicates Model.MajoranaOp Model.Program Check.DictEquiv Check.OpEquiv Check.Commutator Thm.C07.Adjoint.\n')
-NEEDS = ['Thm/C02/IsClose', 'Thm/C02/Bounded']
+NEEDS = ['Thm/C02/IsClose', 'Thm/C02/Bounded', 'Thm/C03/NormalOrderFix']
 TOL = 1e-8
 
 def t2lit(tol): return cQ(Fraction(tol) ** 2)
